@@ -337,6 +337,26 @@ func VH_C01_bldAny() {
 		WithExecFuncAny(func(ctx context.Context, p any) (any, error) { return m.exec(p) }).
 		WithExecFallbackFunc(func(p any, err error) (any, error) { return m.fallback(p, err) }).
 		WithPostFuncAny(func(ctx context.Context, s *SharedStore, p, e any) (Action, error) { return m.post(s, p, e) })
+	if vNondet[bool]("execReplacedInTheOtherStyle") {
+		// the last exec function set is the node's exec phase, whatever style the earlier one had
+		vCover("exec-function-replaced-in-the-other-style")
+		n = NewNode().
+			WithMaxRetries(N).
+			WithPrepFuncAny(func(ctx context.Context, s *SharedStore) (any, error) { return m.prep(s) }).
+			WithExecFuncAny(func(ctx context.Context, p any) (any, error) {
+				vAssert(false, "only-the-exec-function-set-last-runs")
+				return nil, nil
+			}).
+			WithExecFunc(func(ctx context.Context, p Result) (Result, error) {
+				v, err := m.exec(p.Value())
+				if err != nil {
+					return Result{}, err
+				}
+				return NewResult(v), nil
+			}).
+			WithExecFallbackFunc(func(p any, err error) (any, error) { return m.fallback(p, err) }).
+			WithPostFuncAny(func(ctx context.Context, s *SharedStore, p, e any) (Action, error) { return m.post(s, p, e) })
+	}
 	if vNondet[bool]("batchSettingsOnAFunctionNode") {
 		// the batch settings every node carries mean nothing on a node that is not a batch node:
 		// its lifecycle is the plain one
